@@ -180,6 +180,7 @@ func runC01(c *ctx) {
 	}
 	c01Packed(c, tmp)
 	c01OverlayRuns(c, tmp)
+	c01UnionOverlap(c, tmp)
 	nHist := c.n(110, 1500)
 	for h := 0; h < nHist; h++ {
 		depth := 1 + c.rng.Intn(2)
@@ -523,6 +524,85 @@ func c01Packed(c *ctx, tmp string) {
 				c.violation(-1, "c01-leaf-stat", fmt.Sprintf("%s: blob %d: stat answers %v (err %v)", desc, i, sbs, err), nil)
 			}
 		}
+		root.closeAll()
+	}
+}
+
+// a union whose members overlap: the same blobs sit in two or three members of every leaf kind whose readers are real
+// files. Every blob must be fetched back byte for byte, stat-ed and enumerated once.
+func c01UnionOverlap(c *ctx, tmp string) {
+	kinds := [][]string{{"localdisk", "localdisk"}, {"localdisk", "memory", "localdisk"}, {"diskpacked", "localdisk"}, {"memory", "diskpacked"}}
+	for round, ks := range kinds {
+		b := newBuilder(fmt.Sprintf("%s/unionov%d", tmp, round))
+		root := &cfgNode{Kind: "union"}
+		for _, k := range ks {
+			kid := &cfgNode{Kind: "leaf", Leaf: k, readOnly: true}
+			if k == "diskpacked" {
+				kid.Detail = "300,memory"
+			}
+			root.Kids = append(root.Kids, kid)
+		}
+		if err := b.build(root); err != nil {
+			c.rep.Notes = append(c.rep.Notes, "build union: "+err.Error())
+			return
+		}
+		ctxb := context.Background()
+		desc := "union[" + strings.Join(ks, " ") + "] with every blob in every member"
+		var pre, ops, outs []string
+		var refs []blob.Ref
+		content := map[string][]byte{}
+		for i := 0; i < 5; i++ {
+			data := []byte(fmt.Sprintf("union overlap blob %d of round %d seed %d %s", i, round, c.seed, strings.Repeat("x", i*300)))
+			if i == 4 {
+				data = nil // the empty blob
+			}
+			br := blob.RefFromBytes(data)
+			for li, kid := range root.Kids {
+				if i == 1 && li > 0 {
+					continue // one blob sits in the first member only
+				}
+				if _, err := blobserver.Receive(ctxb, kid.sto, br, bytes.NewReader(data)); err != nil {
+					c.rep.Notes = append(c.rep.Notes, "union preload: "+err.Error())
+					return
+				}
+				pre = append(pre, fmt.Sprintf("(%d%%nat, %s, %s)", li, qs(br.String()), qh(data)))
+			}
+			refs = append(refs, br)
+			content[br.String()] = data
+		}
+		sort.Slice(refs, func(i, j int) bool { return refs[i].String() < refs[j].String() })
+		for rep := 0; rep < 3; rep++ {
+			for _, br := range refs {
+				c.rep.SpecChecks++
+				got, sz, err := fetchAll(root.sto, br)
+				want := content[br.String()]
+				if err != nil || !bytes.Equal(got, want) || int(sz) != len(want) {
+					c.violation(-1, "c01-union-fetch", fmt.Sprintf("%s: fetch of %s gives %d bytes (size %d, err %v), the blob has %d", desc, br, len(got), sz, err, len(want)), nil)
+					root.closeAll()
+					return
+				}
+				if rep == 0 {
+					ops = append(ops, "Fetch "+qs(br.String()))
+					outs = append(outs, "OBytes "+qh(got))
+				}
+			}
+		}
+		sbs, err := statAll(root.sto, refs)
+		all, err2 := enumAll(root.sto, "", 100)
+		c.rep.SpecChecks++
+		if err != nil || err2 != nil || len(sbs) != len(refs) || len(all) != len(refs) {
+			c.violation(-1, "c01-union-stat", fmt.Sprintf("%s: stat reports %d blobs (err %v), enumerate %d (err %v), the union holds %d", desc, len(sbs), err, len(all), err2, len(refs)), nil)
+		} else {
+			ops = append(ops, "Enum "+qs("")+" 100")
+			outs = append(outs, "OEnum "+qsized(all))
+		}
+		var nones []string
+		for range root.Kids {
+			nones = append(nones, "None")
+		}
+		c.addCase(fmt.Sprintf("CHist (%s) %s %s %s %s", root.coq(), qlist(pre), qlist(ops), qlist(outs), qlist(nones)),
+			map[string]any{"config": root, "describe": desc, "ops": len(ops)}, true)
+		c.count("ops", "union with overlapping members")
 		root.closeAll()
 	}
 }
